@@ -1,6 +1,7 @@
 import KrroodVerif.Sexp
 import KrroodVerif.Model.Eql
 import KrroodVerif.Model.EqlTrace
+import KrroodVerif.Model.EqlTraceQ
 import KrroodVerif.Drive.EqlParse
 namespace KrroodVerif.Drive.C10
 open KrroodVerif KrroodVerif.Eql KrroodVerif.Drive.EqlParse
@@ -46,7 +47,7 @@ def run (s : Sexp) : String :=
   match parseCase s with
   | none => "error=bad-case"
   | some (w, q) =>
-    let evs := traceQuery w q.toQuery
+    let evs := traceQueryQ w q.toQuery
     let n := (rowsOf evs).length
     let vars := sortNat (w.doms.map (·.1))
     let line := fun (k : Nat) =>
